@@ -821,7 +821,7 @@ theorem emacs_cprStay : CprStay Emacs.tbl := by intro ed; rfl
 section examples
 open Emacs
 
-def ed0 : S := ⟨⟨[], 0⟩, false⟩
+def ed0 : S := ⟨⟨[], 0⟩, false, false⟩
 def k (c : Char) : Key := .other c.toNat
 def cSpace : Key := .other kCtrlAt
 def cX : Key := .other kCtrlX
@@ -873,18 +873,18 @@ def dispatchFuelOld (T : Tbl σ) : Nat → Bool → KP σ → Option (KP σ)
     `app.exit()` is called a second time ("Return value already set") -/
 theorem old_code_dispatches_after_exit :
     ∃ p', dispatchFuelOld Emacs.tbl 3 false
-        ⟨[], [.abort, .accept], false, false, [], ⟨⟨['a'], 1⟩, true⟩, none, []⟩ = some p' ∧
+        ⟨[], [.abort, .accept], false, false, [], ⟨⟨['a'], 1⟩, true, false⟩, none, []⟩ = some p' ∧
       p'.crashed = true ∧
       p'.trace = [.call [.abort] true, .call [.accept] true] := by
   refine ⟨_, rfl, ?_, ?_⟩ <;> decide
 
 /-- the same input, current code: Enter goes back to the queue -/
 example : (dispatch Emacs.tbl false
-      ⟨[], [.abort, .accept], false, false, [], ⟨⟨['a'], 1⟩, true⟩, none, []⟩).crashed = false ∧
+      ⟨[], [.abort, .accept], false, false, [], ⟨⟨['a'], 1⟩, true, false⟩, none, []⟩).crashed = false ∧
     (dispatch Emacs.tbl false
-      ⟨[], [.abort, .accept], false, false, [], ⟨⟨['a'], 1⟩, true⟩, none, []⟩).queue = [some .accept] ∧
+      ⟨[], [.abort, .accept], false, false, [], ⟨⟨['a'], 1⟩, true, false⟩, none, []⟩).queue = [some .accept] ∧
     (dispatch Emacs.tbl false
-      ⟨[], [.abort, .accept], false, false, [], ⟨⟨['a'], 1⟩, true⟩, none, []⟩).trace = [.call [.abort] true] := by
+      ⟨[], [.abort, .accept], false, false, [], ⟨⟨['a'], 1⟩, true, false⟩, none, []⟩).trace = [.call [.abort] true] := by
   decide
 
 end examples
@@ -1029,14 +1029,75 @@ theorem key_after_cpr_same_as_without (T : Tbl σ) (hT : CprInert T) (p : KP σ)
     (send T p k).sameCore (send T (processCpr T p) k) :=
   send_core T (cpr_leaves_arg_alone T hT p) k
 
-theorem emacs_cprInert : CprInert Emacs.tbl := by intro ed _; rfl
+theorem emacs_cprInert : CprInert Emacs.tbl := by
+  intro ed _; cases ed; simp [Emacs.tbl, Emacs.tblV, Emacs.handlerV, Emacs.handlerCore]
 
 -- `a escape-3 CPR x`: the argument survives the CPR response and `x` is inserted three times
-example : (run Emacs.tbl (St.init ⟨⟨[], 0⟩, false⟩)
+example : (run Emacs.tbl (St.init ⟨⟨[], 0⟩, false, false⟩)
     [.start, .write [.other 97, .other Emacs.kEsc, .other 51, .cpr, .other 120, .accept], .read 9]).kp.ed.e.text
     = ['a', 'x', 'x', 'x'] := by decide
-example : (run Emacs.tbl (St.init ⟨⟨[], 0⟩, false⟩)
+example : (run Emacs.tbl (St.init ⟨⟨[], 0⟩, false, false⟩)
     [.start, .write [.other 97, .other Emacs.kEsc, .other 51, .cpr], .read 9]).kp.arg = some 3 := by decide
+
+
+/-! ### validators that reject the line, and handlers that exit with an exception (c-c, c-d)
+
+  Nothing in the theorems above depends on WHICH handler calls end the application: the registry
+  decides, call by call and depending on its state, whether a handler returns or calls `app.exit`.
+  An Enter that the validator rejects is a handler call that returns: it is no boundary. -/
+
+/-- a handler call that returns (a rejected Enter, for instance) leaves the application running
+    exactly as it was: not done, not crashed, the key sequence recorded as dispatched-without-exit -/
+theorem returning_call_is_no_boundary (T : Tbl σ) (p : KP σ) (ks : List Key)
+    (h : (T.handler p.ed p.arg ks).eff = Eff.stay) :
+    (callHandler T p ks).done = p.done ∧ (callHandler T p ks).crashed = p.crashed ∧
+    (callHandler T p ks).queue = p.queue ∧
+    (callHandler T p ks).trace = p.trace ++ [.call ks false] := by
+  simp [callHandler, h]
+
+/-- **A prompt ends only at a handler call that exits**: in every reachable state, the dispatch trace
+    of every finished prompt is `calls that returned ++ [the ONE call that exited] ++ CPR responses`,
+    and the current prompt, while it has no result, has seen returning calls only.  So with a
+    validator that rejects, the keys after the rejected Enter keep editing the SAME prompt, and the
+    keys after an exiting c-c / c-d / accepted Enter go to the NEXT one (conservation:
+    `no_loss_no_dup_buf`). -/
+theorem prompt_ends_only_at_exiting_call (T : Tbl σ) (hT : CprStay T) (ed : σ) (evs : List Ev) :
+    ∀ s, s = run T (St.init ed) evs →
+    (∀ r ∈ s.results, ∃ pre ks post, r.1 = pre ++ [Disp.call ks true] ++ post ∧ NoExit pre ∧
+      ∀ d ∈ post, isCprCall d) ∧
+    (s.kp.done = false → NoExit s.kp.trace) := by
+  intro s hs
+  obtain ⟨h1, h2⟩ := nothing_dispatched_after_exit T hT ed evs s hs
+  refine ⟨fun r hr => by simpa [TraceShape] using h2 r hr, fun hd => ?_⟩
+  simpa [TraceShape, hd] using h1
+
+theorem emacsV_cprStay (v : Nat) : CprStay (Emacs.tblV v) := by intro ed; rfl
+theorem emacsV_cprInert (v : Nat) : CprInert (Emacs.tblV v) := by
+  intro ed _; cases ed; simp [Emacs.tblV, Emacs.handlerV, Emacs.handlerCore]
+
+section examplesV
+open Emacs
+
+-- validator 1 (text must not be empty): the first Enter is rejected and is no boundary, `a Enter`
+-- is accepted, `b` is type-ahead
+example : (run (tblV 1) (St.init ed0) [.start, .write [.accept, k 'a', .accept, k 'b'], .read 9]).kp.trace =
+    [.call [.accept] false, .call [k 'a'] false, .call [.accept] true] ∧
+    (run (tblV 1) (St.init ed0) [.start, .write [.accept, k 'a', .accept, k 'b'], .read 9]).kp.queue =
+      [some (k 'b')] := by decide
+-- validator 2 (no `x`, error position = end): `a x Enter` is rejected, Backspace repairs it
+example : (run (tblV 2) (St.init ed0)
+    [.start, .write [k 'a', k 'x', .accept, .other Ed.kBackspace, .accept], .read 9, .finish]).results.map
+      (fun r => r.2.e.text) = [['a']] := by decide
+-- c-d on an empty buffer ends the prompt (EOFError), on a non-empty buffer it deletes
+example : (run tbl (St.init ed0) [.start, .write [.other Ed.kCtrlD, k 'z'], .read 9]).kp.trace =
+    [.call [.other Ed.kCtrlD] true] ∧
+    (run tbl (St.init ed0) [.start, .write [.other Ed.kCtrlD, k 'z'], .read 9]).kp.queue = [some (k 'z')] := by
+  decide
+example : (run tbl (St.init ed0)
+    [.start, .write [k 'a', k 'b', .other Ed.kCtrlA, .other Ed.kCtrlD, .accept], .read 9]).kp.ed.e.text = ['b'] := by
+  decide
+
+end examplesV
 
 
 end Ptk.C17.Buf
